@@ -338,10 +338,23 @@ func c44Printable(s string) string {
 // c44Observe compares the two trees and all open handles after op; sig is the
 // signature prefix of the operation. It stores the agreed tree in s.
 func c44Observe(w *vx.W, s *c44State, op c44Op, sig string) bool {
-	rt, infos, err := c44RefTree(s.tmp)
-	if err != nil {
-		s.bad = err
-		return false
+	// Operations that cannot modify the native tree (Stat, Read, Seek, Readdir,
+	// Close) do not need it re-read: the reference side keeps the last
+	// observation, the memFS side is still compared against it in full.
+	refSame := false
+	switch op.K {
+	case "stat", "hstat", "read", "seek", "readdir", "close":
+		refSame = true
+	}
+	rt := s.tree
+	var infos map[string]os.FileInfo
+	if !refSame {
+		var err error
+		rt, infos, err = c44RefTree(s.tmp)
+		if err != nil {
+			s.bad = err
+			return false
+		}
 	}
 	it, where := c44ImplTree(s.mfs)
 	var paths []string
@@ -381,7 +394,9 @@ func c44Observe(w *vx.W, s *c44State, op c44Op, sig string) bool {
 		mf := h.impl.(*memFile)
 		iw := where[mf.n] // "" when unlinked
 		rw := ""
-		if fi, err := h.ref.Stat(); err == nil {
+		if refSame {
+			rw = h.where
+		} else if fi, err := h.ref.Stat(); err == nil {
 			for p, pi := range infos {
 				if os.SameFile(fi, pi) {
 					rw = p
@@ -417,7 +432,7 @@ func c44Observe(w *vx.W, s *c44State, op c44Op, sig string) bool {
 			return false
 		}
 		h.pos = rp
-		if iw == "" && h.mode != "wronly" {
+		if iw == "" && h.mode != "wronly" && !refSame {
 			// an unlinked file is only reachable through handles: compare its bytes too
 			fi, _ := h.ref.Stat()
 			buf := make([]byte, fi.Size())
@@ -425,8 +440,12 @@ func c44Observe(w *vx.W, s *c44State, op c44Op, sig string) bool {
 				s.bad = fmt.Errorf("pread of unlinked reference file h%d: %v", k, err)
 				return false
 			}
+			if len(buf) != len(mf.n.data) {
+				w.Failf(sig+"/tree-differs:content-length", "after %v: the unlinked file of h%d has %d bytes natively (%s), %d bytes in memFS (%s)", op, k, len(buf), c44Printable(string(buf)), len(mf.n.data), c44Printable(string(mf.n.data)))
+				return false
+			}
 			if string(buf) != string(mf.n.data) {
-				w.Failf(sig+"/tree-differs:unlinked-content", "after %v: unlinked file of h%d is %s natively, %s in memFS", op, k, c44Printable(string(buf)), c44Printable(string(mf.n.data)))
+				w.Failf(sig+"/tree-differs:content-bytes", "after %v: the unlinked file of h%d is %s natively, %s in memFS", op, k, c44Printable(string(buf)), c44Printable(string(mf.n.data)))
 				return false
 			}
 		}
@@ -514,7 +533,21 @@ func c44Close(s *c44State) {
 			h.ref.Close()
 		}
 	}
-	if s.tmp != "" {
+	if s.tmp == "" {
+		return
+	}
+	// remove what the last observation saw, deepest first; RemoveAll is the fallback
+	var paths []string
+	for p := range s.tree {
+		if p != "/" {
+			paths = append(paths, p)
+		}
+	}
+	sort.Sort(sort.Reverse(sort.StringSlice(paths)))
+	for _, p := range paths {
+		os.Remove(filepath.Join(s.tmp, filepath.FromSlash(p)))
+	}
+	if os.Remove(s.tmp) != nil {
 		os.RemoveAll(s.tmp)
 	}
 }
@@ -980,7 +1013,8 @@ func TestVerif_C44(t *testing.T) {
 			seek: []int64{-1, 0, 1, 10}, rdir: []int{-1, 0, 1},
 			depth: vx.Pick(c, 3, 5),
 			seeds: [][]c44Op{nil, {mk("/a"), mk("/b")},
-				{mk("/a"), {K: "open", P: "/a/x", F: "RDWR|CREATE"}, {K: "write", H: 0, D: "cdefg"}, {K: "close", H: 0}}},
+				{mk("/a"), {K: "open", P: "/a/x", F: "RDWR|CREATE"}, {K: "write", H: 0, D: "cdefg"}, {K: "close", H: 0}},
+				{{K: "open", P: "/a", F: "RDWR|CREATE"}, {K: "write", H: 0, D: "cdefg"}}},
 		})
 	})
 }
